@@ -206,6 +206,8 @@ func checkURLPrefixChains(p *Program, r *Report) {
 		case emptyPrefix:
 			want := []string{"⟨sc⟩", fnNormalize}
 			okSym := len(alt.Elems) == 3 && alt.Elems[0].Sym != nil && isSanitizerNameOfSC(alt.Elems[0].Sym)
+			notAmbig0 := guardHas(alt.Guards, func(a Atom) bool { return isAmbiguousField(a) && !a.Pol })
+			r.Check(notAmbig0, rule, c+":no-prefix-unambiguous", pos, "the start-of-URL chain is chosen only for an unambiguous (empty) prefix", "the start-of-URL chain is chosen although the branches of a conditional may have left different static text in the value (the recorded prefix is empty but the real one need not be)")
 			r.Check(sameButLast(fns, want) && okSym, rule, c+":no-prefix", pos, "without a static prefix: [context sanitizer, NormalizeURL, HTML escaper]",
 				fmt.Sprintf("chain without a static prefix is %v, expected [context sanitizer, NormalizeURL, HTML escaper]", fns))
 		case nonEmptyPrefix:
